@@ -151,7 +151,7 @@ static void explore(const MTab &T, const char *side, const Args &args)
         Counters tc;
         const int NS = e.nstates;
         // ------------------------------------------------------------ chain (w=2, all 6-tuples)
-        if ((e.kind == MK_SPMV || e.kind == MK_DOT) && !e.small8 && W == 2)
+        if ((e.kind == MK_SPMV || e.kind == MK_DOT) && !e.small8 && W == 2 && !e.alias)
         {
             const u64 N3 = 16 * 16 * 16;
             Counters c;
@@ -181,7 +181,7 @@ static void explore(const MTab &T, const char *side, const Args &args)
             rep().sample(fmt("chain-%s", e.name), fmt("\"w\":2,\"kernel\":\"%s\",\"what\":\"every (a0,b0,a1,b1,a2,b2) in [0,16)^6 per lane\",\"lane_cases\":%lld", e.name, c.cases), 1);
         }
         // ------------------------------------------------------------ chain8: 8-bit coefficient variants
-        if ((e.kind == MK_SPMV) && e.small8 && W < 32)
+        if ((e.kind == MK_SPMV) && e.small8 && W < 32 && !e.alias)
         {
             std::vector<u64> sa;
             bool full = (W == 2) || (W == 4 && thorough);
@@ -222,7 +222,7 @@ static void explore(const MTab &T, const char *side, const Args &args)
             rep().sample(fmt("chain8-%s", e.name), fmt("\"w\":%u,\"kernel\":\"%s\",\"what\":\"state triples over %zu representations x coefficient triples over %llu admitted values below %llu\",\"lane_cases\":%lld", W, e.name, n, (unsigned long long)nbv, (unsigned long long)B8, c.cases), 1);
         }
         // ------------------------------------------------------------ addchain: state=1, coefficients = representations
-        if ((e.kind == MK_SPMV || e.kind == MK_DOT) && !e.small8)
+        if ((e.kind == MK_SPMV || e.kind == MK_DOT) && !e.small8 && !(e.alias && W > 2))
         {
             bool full = (W == 2) || (W == 4);
             std::vector<u64> R = rep_alphabet(full);
@@ -311,7 +311,7 @@ static void explore(const MTab &T, const char *side, const Args &args)
             rep().sample(fmt("carry72-%s", e.name), fmt("\"kernel\":\"%s\",\"what\":\"8-bit coefficients b in [2,256) with states a = (floor((k*2^32-1)/b)<<32)|0xFFFFFFFF: the 72-bit product carries out of its middle column\",\"example\":{\"a\":\"0x55555555ffffffff\",\"b\":3},\"cases\":%lld", e.name, c.cases), 1);
         }
         // ------------------------------------------------------------ colsum
-        if (e.kind == MK_MMULT4x12)
+        if (e.kind == MK_MMULT4x12 && !(e.alias && W > 2))
         {
             bool full = (W == 2) || (W == 4 && thorough && !e.small8);
             std::vector<u64> R = rep_alphabet(full);
@@ -383,7 +383,7 @@ static void explore(const MTab &T, const char *side, const Args &args)
             tc.evals += c.evals; tc.cases += c.cases; tc.nontriv += c.nontriv;
         }
         // ------------------------------------------------------------ dev2 (native and w=8/32 models): <=2 deviations over alphabet
-        if (W >= 8)
+        if (W >= 8 && !(e.alias && W == 8))
         {
             std::vector<u64> A = (W == 32) ? small_alphabet() : rep_alphabet(false);
             if (W == 32)
